@@ -572,7 +572,9 @@ func (o DHCPv6Option) String() string {
 		return fmt.Sprintf("Option(%s:[%s])", o.Code, duid.String())
 	case DHCPv6OptOro:
 		options := ""
-		for i := 0; i < int(o.Length); i += 2 {
+		// whole 16 bit codes that are really there: Length is a public field and an odd
+		// length leaves a single byte behind the last code
+		for i := 0; i+2 <= len(o.Data) && i+2 <= int(o.Length); i += 2 {
 			if options != "" {
 				options += ","
 			}
